@@ -217,7 +217,7 @@ func runC02(c *core.Ctx, o Options) {
 			if lf == um {
 				entry = asT
 			} else if group == nil || asT.Call.Args[0] != group || addE.Call.Args[0] != group {
-				bad = append(bad, "the helper "+lf.Name()+" does not build and add the entries on the group it is given")
+				bad = append(bad, "the helper "+an.NameOf(lf)+" does not build and add the entries on the group it is given")
 			}
 			var iPhi *ssa.Phi
 			if ia, ok := unload(rec.Call.Args[1]).(*ssa.IndexAddr); ok {
@@ -338,7 +338,7 @@ func runC02(c *core.Ctx, o Options) {
 							}
 						}
 						if !okErr {
-							bad = append(bad, "the error of "+lf.Name()+" is not returned by the group case")
+							bad = append(bad, "the error of "+an.NameOf(lf)+" is not returned by the group case")
 						}
 					}
 				}
@@ -454,7 +454,7 @@ func runC02(c *core.Ctx, o Options) {
 	}
 	// ---- R7 whole-slice loops with error-only early exit
 	for _, fn := range pkgFuncs(c.SSAPkg("fix/encoding")) {
-		spec := struct{ name string }{fn.Name()}
+		spec := struct{ name string }{an.NameOf(fn)}
 		for _, lp := range loops(fn) {
 			inLp := map[*ssa.BasicBlock]bool{}
 			for _, b := range lp {
@@ -666,7 +666,7 @@ func checkTemplateRebuild(c *core.Ctx, rule string) {
 				}
 			}
 			if passed == "" {
-				bad = append(bad, "the helper "+body.Name()+" that builds the copy is not given "+src)
+				bad = append(bad, "the helper "+an.NameOf(body)+" that builds the copy is not given "+src)
 			} else {
 				fn, src = body, passed
 			}
